@@ -405,6 +405,75 @@ func udpGroups(th bool) []*group {
 		})
 	}
 
+	// The relay keeps a session table keyed by the client session id: a datagram
+	// whose id matches a live session skips NewUnpacker and goes straight to the
+	// existing unpacker.  Same alphabets as above, but every case first
+	// establishes live sessions with the valid seed datagrams.
+	for _, cfg := range cfgs {
+		cfg := cfg
+		name := "ss2022-udp-server-live/" + cfg.name
+		var seeds [][]byte
+		for i, ad := range addrSeedsReduced() {
+			if i >= 4 {
+				break
+			}
+			seeds = append(seeds, cat(sep(0x0102030405060708, uint64(i)), udpClientBody(nowUnix, i%2, ad, payloads[0])))
+		}
+		var wires [][]byte
+		for _, sd := range seeds {
+			wires = append(wires, cfg.buildClientPacket(kind(kFixedVar, sd)))
+		}
+		parts := []part{
+			newTrunc(name+"/wire-truncations", []byte{kRaw}, wires),
+			newMut1(name+"/wire-mut1", []byte{kRaw}, wires[:2]),
+			newInsDel(name+"/wire-insdel", []byte{kRaw}, wires[:1]),
+			newAlpha(name+"/raw-alpha-after-separate-header", cat([]byte{kRaw}, wires[0][:16]), nil, byteAlpha(0x00, 0x01, 0x7f, 0xff), 0, LRaw),
+		}
+		gs = append(gs, &group{
+			name: name, desc: "ss2022 UDPServer with a live session table: SessionInfo, then the existing unpacker's UnpackInPlace when the session id is known (NewUnpacker only for new ids), as the session relay does",
+			parts: parts, seedsMustPass: false,
+			run: func(w *worker, in []byte) {
+				srv := cfg.newUDPServer()
+				w.udpSrv = srv
+				table := map[uint64]zerocopy.ServerUnpacker{}
+				head := zerocopy.UDPRelayHeadroom(w.env.maxCliHead, srv.Info().UnpackerHeadroom)
+				step := func(wire []byte) {
+					n := min(len(wire), udpRecvSize)
+					buf := make([]byte, head.Front+udpRecvSize+head.Rear)
+					copy(buf[head.Front:], wire[:n])
+					pkt := buf[head.Front : head.Front+n]
+					w.ops++
+					csid, err := srv.SessionInfo(pkt)
+					if err != nil {
+						w.class("err-session")
+						return
+					}
+					unp := table[csid]
+					if unp == nil {
+						unp, _, err = srv.NewUnpacker(pkt, csid)
+						if err != nil {
+							w.class("err-session")
+							return
+						}
+					}
+					w.ops++
+					if _, _, _, err = unp.UnpackInPlace(buf, udpClientSrc, head.Front, n); err != nil {
+						w.class("err")
+						return
+					}
+					table[csid] = unp
+					w.sum.Accepted++
+				}
+				for _, v := range wires {
+					step(v)
+				}
+				w.wire = cfg.buildClientPacket(in)
+				step(w.wire)
+				w.udpSrv = nil
+			},
+		})
+	}
+
 	for _, cfg := range cfgs {
 		cfg := cfg
 		name := "ss2022-udp-client/" + cfg.name
